@@ -294,6 +294,23 @@ class TapeHooks:
     def on_static_store(self, m, st, path, v):
         pass
 
+    def on_lookahead_scan(self, m, st, s, what):
+        """A pass over the *remaining* input whose length is not bounded by a constant (nothing is
+        consumed by it).  The parser proper only ever looks a bounded number of bytes ahead; one
+        such pass per call keeps the work linear, a second one does not."""
+        if s[0] != "fat" or s[1][0] != "B":
+            return
+        r = st.rel_pos(s[1][1], s[1][2])
+        if r is None or r[2] != 1 or r[0] is None or r[0] < 0:
+            return
+        ln = s[2]
+        if ln[0] == "int" and ln[1] <= 64:
+            return
+        n = st.flags.get("ahead_scans", 0)
+        if n >= 1:
+            m.violate(st, "lookahead-rescanned", "%s is a second unbounded pass over the remaining input (work grows with the square of the buffer length)" % what, fatal=False)
+        st.flags["ahead_scans"] = min(n + 1, 2)
+
     def on_region_scan(self, m, st, s, what):
         """A linear pass over a slice of the input (trim scan, UTF-8 validation, iteration).
         The uncommitted window may be scanned once between two commits; committed regions are
